@@ -109,6 +109,20 @@ def run(ck, facts, tier):
             loops = [l for l in walk(t["body"]) if l.get("k") == "match" and l.get("src", "").startswith("ForLoopDesugar")]
             okt = len([c for c in calls(t["body"], "to_program_clauses")]) == 2 and has_call(t["body"], "trait_datum") and \
                 any(mentions_field(l["scrut"], "associated_ty_ids") and has_call(l, "associated_ty_data") and has_call(l, "to_program_clauses") for l in loops)
+            if okt:
+                # ... and unconditionally: whether the associated types' implied bounds are pushed does not depend on anything the
+                # elaborator remembers about earlier clauses or rounds (the consequence of `FromEnv(T: Super) :- FromEnv(T: Sub)` names a
+                # trait whose associated types nobody has elaborated yet)
+                from kit import conditions_above
+                for l in loops:
+                    if mentions_field(l["scrut"], "associated_ty_ids"):
+                        above = conditions_above(t["body"], l)
+                        if above is None or above:
+                            okt = False
+                for c_ in calls(t["body"], "to_program_clauses"):
+                    above = [a_ for a_ in (conditions_above(t["body"], c_) or []) if not str(a_.get("src", "")).startswith("ForLoopDesugar")]
+                    if above:
+                        okt = False
             oky = has_call(y["body"], "visit_with")
             if okt:
                 ck.ok(R, "visit_domain_goal:FromEnv::Trait")
